@@ -7,8 +7,9 @@
 package nsqd
 
 // Every channel in a topic's map was built by NewChannel, which always sets nsqd and a backend
-// (dummy queue for ephemeral channels, diskqueue otherwise). Used as `lockassume` below (call protocol);
-// it could be promoted to the lock invariant of Topic.RWMutex together with a stronger NewChannel stub.
+// (dummy queue for ephemeral channels, diskqueue otherwise). (round 3, area A) This is no longer assumed (`lockassume`
+// removed from Topic.exit and DeleteExistingChannel): it follows from the lock invariant [values] of Topic.RWMutex
+// (zz_contracts_lookup_verif.go); the predicate is only used in loop invariants now.
 //@ pred kTopicChannelsBuilt(t *Topic) := forall k string :: {t.channelMap[k]} has(t.channelMap, k) ==> flowChan(t.channelMap[k])
 
 // PROPERTY TEXT (C08): emptying a topic discards what is queued: the memory queue is drained - received and
@@ -37,7 +38,6 @@ package nsqd
 //@ func (t *Topic) exit(deleted bool) error
 //@   props C08 C05
 //@   requires flowTopic(t)
-//@   lockassume kTopicChannelsBuilt(t)
 //@   ensures[second-call-refused] old(t.exitFlag) != 0 ==> result != nil && t.exitFlag == old(t.exitFlag)
 //@   ensures[second-call-no-effect] old(t.exitFlag) != 0 ==> kNotifies == old(kNotifies) && kInitPQs == old(kInitPQs) && kBqEmpties == old(kBqEmpties) && kBqDeletes == old(kBqDeletes) && kBqCloses == old(kBqCloses) && kFlushes == old(kFlushes) && kTopicFlushes == old(kTopicFlushes) && backendWrites == old(backendWrites) && sent(t.exitChan) == old(sent(t.exitChan))
 //@   ensures[flag-set] old(t.exitFlag) == 0 ==> t.exitFlag == 1
@@ -45,6 +45,12 @@ package nsqd
 //@   ensures[delete-removes-files] old(t.exitFlag) == 0 && deleted ==> kBqDeletes >= old(kBqDeletes) + 1 && kBqDeleteQueue == t.backend && result == kBqDeleteErr && kBqEmptyQueue == t.backend && kBqDeleteSawEmpties == kBqEmpties
 //@   ensures[delete-persists-nothing] old(t.exitFlag) == 0 && deleted ==> kBqCloses == old(kBqCloses) && kFlushes == old(kFlushes) && kTopicFlushes == old(kTopicFlushes) && backendWrites == old(backendWrites)
 //@   ensures[delete-forgets-channels] old(t.exitFlag) == 0 && deleted ==> atunlock(len(t.channelMap)) <= atlock(len(t.channelMap))
+//   (round 3) completeness of the two map ranges. Delete path: EVERY channel that is in the map when the topic lock is taken
+//   has been deleted (Channel.Delete) and is no longer in the map when the lock is released; nothing is left in the map.
+//   Close path: EVERY channel in the map has been closed (Channel.Close) - also after a Close that returned an error.
+//@   ensures[delete-deletes-every-channel] old(t.exitFlag) == 0 && deleted ==> (forall k string :: {atlock(t.channelMap[k])} atlock(has(t.channelMap, k)) ==> setin(r3aChanDeletedSet, atlock(t.channelMap[k])))
+//@   ensures[delete-removes-every-channel-from-map] old(t.exitFlag) == 0 && deleted ==> (forall k string :: {atunlock(t.channelMap[k])} !atunlock(has(t.channelMap, k)))
+//@   ensures[close-closes-every-channel] old(t.exitFlag) == 0 && !deleted ==> (forall k string :: {atunlock(t.channelMap[k])} atunlock(has(t.channelMap, k)) ==> setin(r3aChanClosedSet, atunlock(t.channelMap[k])))
 //@   ensures[close-flushes-then-closes] old(t.exitFlag) == 0 && !deleted ==> kTopicFlushes == old(kTopicFlushes) + 1 && kFlushTopic == t && kBqCloses >= old(kBqCloses) + 1 && kBqCloseQueue == t.backend && kBqCloseSawWrites == kFlushes + kTopicFlushes && result == kBqCloseErr
 //@   ensures[close-discards-nothing] old(t.exitFlag) == 0 && !deleted ==> kNotifies == old(kNotifies) && kInitPQs == old(kInitPQs) && kBqEmpties == old(kBqEmpties) && kBqDeletes == old(kBqDeletes) &&
 //@        atunlock(t.channelMap) == atlock(t.channelMap) && atunlock(len(t.channelMap)) == atlock(len(t.channelMap))
@@ -59,15 +65,31 @@ package nsqd
 //@     invariant[channels-built] kTopicChannelsBuilt(t) && t.channelMap != nil && len(t.channelMap) <= atlock(len(t.channelMap))
 //@     invariant[persists-nothing] kBqCloses == old(kBqCloses) && kFlushes == old(kFlushes) && kTopicFlushes == old(kTopicFlushes) && backendWrites == old(backendWrites)
 //@     invariant[counters] t.messageCount == old(t.messageCount) && t.messageBytes == old(t.messageBytes)
+//@     invariant[keyed-by-name] forall k string :: {t.channelMap[k]} has(t.channelMap, k) ==> t.channelMap[k].name == k
+//@     invariant[shrinks-only] t.channelMap == atlock(t.channelMap) && (forall k string :: {t.channelMap[k]} has(t.channelMap, k) ==> atlock(has(t.channelMap, k)) && t.channelMap[k] == atlock(t.channelMap[k]))
+//@     invariant[removed-were-deleted] forall k string :: {atlock(t.channelMap[k])} atlock(has(t.channelMap, k)) && !has(t.channelMap, k) ==> setin(r3aChanDeletedSet, atlock(t.channelMap[k]))
+//@     invariant[visited-removed] forall k string :: {visited(k)} visited(k) ==> !has(t.channelMap, k)
 //@   loop 1
 //@     invariant[first] old(t.exitFlag) == 0 && t.exitFlag == 1 && !deleted
 //@     invariant[channels-kept] kTopicChannelsBuilt(t) && t.channelMap == atlock(t.channelMap) && len(t.channelMap) == atlock(len(t.channelMap)) && (forall k string :: {t.channelMap[k]} (has(t.channelMap, k) <==> atlock(has(t.channelMap, k))) && t.channelMap[k] == atlock(t.channelMap[k]))
 //@     invariant[discards-nothing] kNotifies == old(kNotifies) && kInitPQs == old(kInitPQs) && kBqEmpties == old(kBqEmpties) && kBqDeletes == old(kBqDeletes) && kTopicFlushes == old(kTopicFlushes) && kBqCloses >= old(kBqCloses)
+//@     invariant[visited-closed] forall k string :: {t.channelMap[k]} visited(k) ==> setin(r3aChanClosedSet, t.channelMap[k])
 //@     invariant[counters] t.messageCount == old(t.messageCount) && t.messageBytes == old(t.messageBytes)
 
+// (round 3, area A) r3aTopicDeletes counts the Topic.Delete calls, r3aDeletedTopic is the topic of the most recent one.
+//@ ghost r3aTopicDeletes int
+//@ ghost r3aDeletedTopic *Topic
+//@ ghostgroup r3aTopicDeletes, r3aDeletedTopic
+// The frame of Topic.exit / Delete / Close, type-wide (for callers that do not hold the topic in a parameter).
+//@ modset r3aTopicExitFrame := Topic.exitFlag, Topic.channelMap, mapstore(map[string]*Channel), kNotifies,
+//@        Channel.exitFlag, Channel.clients, mapstore(map[int64]Consumer), clientV2.InFlightCount, kConsEmptied, kConsClosed, kLastCons,
+//@        Channel.inFlightMessages, Channel.inFlightPQ, mapstore(map[MessageID]*Message), Message.index, Channel.deferredMessages, Channel.deferredPQ, mapstore(map[MessageID]*pqueue.Item),
+//@        kInitPQs, kBqEmpties, kBqDeletes, kChanDeletes, kBqCloses, kFlushes, kTopicFlushes, backendWrites, lastWriteMsg, lastWriteQueue, lastWriteErr, chanstore(*Message), chanstore(int)
 //@ func (t *Topic) Delete() error
 //@   props C08
 //@   requires flowTopic(t)
+//@   onreturn r3aTopicDeletes := r3aTopicDeletes + 1
+//@   onreturn r3aDeletedTopic := t
 //@   ensures[second-call-refused] old(t.exitFlag) != 0 ==> result != nil && t.exitFlag == old(t.exitFlag) && kBqDeletes == old(kBqDeletes) && kBqEmpties == old(kBqEmpties) && kNotifies == old(kNotifies)
 //@   ensures[deleted] old(t.exitFlag) == 0 ==> t.exitFlag == 1 && kNotifies >= old(kNotifies) + 1 && kBqDeletes >= old(kBqDeletes) + 1 && kBqDeleteQueue == t.backend && result == kBqDeleteErr && kBqEmptyQueue == t.backend
 //@   ensures[persists-nothing] kBqCloses == old(kBqCloses) && kFlushes == old(kFlushes) && kTopicFlushes == old(kTopicFlushes) && backendWrites == old(backendWrites)
@@ -79,6 +101,7 @@ package nsqd
 //@ func (t *Topic) Close() error
 //@   props C08 C05
 //@   requires flowTopic(t)
+//@   onreturn r3aTopicClosedSet := setadd(r3aTopicClosedSet, t)
 //@   ensures[second-call-refused] old(t.exitFlag) != 0 ==> result != nil && t.exitFlag == old(t.exitFlag) && kBqCloses == old(kBqCloses) && kTopicFlushes == old(kTopicFlushes)
 //@   ensures[closed] old(t.exitFlag) == 0 ==> t.exitFlag == 1 && kTopicFlushes == old(kTopicFlushes) + 1 && kFlushTopic == t && kBqCloses >= old(kBqCloses) + 1 && kBqCloseQueue == t.backend && result == kBqCloseErr
 //@   ensures[discards-nothing] kInitPQs == old(kInitPQs) && kBqEmpties == old(kBqEmpties) && kBqDeletes == old(kBqDeletes) && kNotifies == old(kNotifies)
@@ -97,7 +120,6 @@ package nsqd
 //@   props C08
 //@   requires t != nil && t.nsqd != nil
 //@   requires t != nil
-//@   lockassume kTopicChannelsBuilt(t)
 //@   ensures[unknown-refused] result != nil ==> kChanDeletes == old(kChanDeletes) && kBqDeletes == old(kBqDeletes) && kBqEmpties == old(kBqEmpties) && kNotifies == old(kNotifies) && !atlock(has(t.channelMap, channelName))
 //@   ensures[channel-deleted-once] result == nil ==> kChanDeletes == old(kChanDeletes) + 1 && kDeletedChan != nil
 //@   ensures[removed-from-map] result == nil ==> !atunlock(has(t.channelMap, channelName))
